@@ -6,7 +6,7 @@
    refused by the peer, peer detach / end with and without error, handle drops, sends queued right
    before a detach / end / drop. *)
 EXTENDS Integers, Sequences, FiniteSets, TLC, Json
-CONSTANTS Depth, PeerHandleBase
+CONSTANTS Depth, PeerHandleBase, Side     \* Side: "client" | "listener" (the endpoint accepts sessions and links the peer starts)
 
 VARIABLES script, att, s2, ended1, pdet
 vars == <<script, att, s2, ended1, pdet>>
@@ -14,7 +14,9 @@ Init == script = <<>> /\ att = {} /\ s2 = FALSE /\ ended1 = FALSE /\ pdet = {}
 
 Ev == {"AttS1", "AttR2", "AttDup", "Refuse4", "DetS1", "CloseS1", "DropS1", "CloseR2", "PDetS1err", "PDetS1nc", "PCloseR2", "Send1", "SendDrop1", "SendDet1",
        "Beg2", "AttS3", "Send3", "End1", "End1err", "PEnd1", "PEnd1err", "End2", "SendEnd1", "PDetS1idle", "SendQEndErr1", "DropEndErr1"}
+ClientOnly == {"AttDup", "Refuse4"}
 Enabled(e) ==
+  (Side = "client" \/ e \notin ClientOnly) /\
   CASE e = "AttS1" -> ~ended1 /\ "L1" \notin att
     [] e = "AttR2" -> ~ended1 /\ "L2" \notin att
     [] e = "AttDup" -> ~ended1 /\ "L1" \in att /\ "L1" \notin pdet
@@ -43,13 +45,22 @@ PAtt(ch, name, h, role) == [e |-> "PFrame", perf |-> "attach", ch |-> ch, f |-> 
 PDet(ch, h, closed, err) == [e |-> "PFrame", perf |-> "detach", ch |-> ch, f |-> [h |-> h, closed |-> closed, err |-> err]]
 Credit(ch, ech, h) == [e |-> "PFrame", perf |-> "flow", ch |-> ch, ech |-> ech, f |-> [nii |-> [seen |-> 0], iw |-> 1000, noi |-> 0, ow |-> 100, h |-> h, dc |-> [seen |-> 0], lc |-> 50]]
 Send(l, m, ns) == [e |-> "ASend", l |-> l, m |-> m, len |-> 20, settled |-> TRUE, nosettle |-> ns]
-Prefix == << [e |-> "AOpen", cfg |-> [mfs |-> 4096]], [e |-> "PHeader", kind |-> "amqp"],
-             [e |-> "PFrame", perf |-> "open", ch |-> 0, f |-> [mfs |-> 4096, chmax |-> 10]],
-             [e |-> "ABegin", s |-> "s1", cfg |-> [noi |-> 1000, iw |-> 100, ow |-> 100]],
-             [e |-> "PFrame", perf |-> "begin", ch |-> 3, f |-> [rch |-> [ref |-> "s1"], noi |-> 0, iw |-> 1000, ow |-> 100]] >>
+Prefix == IF Side = "client"
+          THEN << [e |-> "AOpen", cfg |-> [mfs |-> 4096]], [e |-> "PHeader", kind |-> "amqp"],
+                  [e |-> "PFrame", perf |-> "open", ch |-> 0, f |-> [mfs |-> 4096, chmax |-> 10]],
+                  [e |-> "ABegin", s |-> "s1", cfg |-> [noi |-> 1000, iw |-> 100, ow |-> 100]],
+                  [e |-> "PFrame", perf |-> "begin", ch |-> 3, f |-> [rch |-> [ref |-> "s1"], noi |-> 0, iw |-> 1000, ow |-> 100]] >>
+          ELSE << [e |-> "AAccept", cfg |-> [mfs |-> 4096]], [e |-> "PHeader", kind |-> "amqp"],
+                  [e |-> "PFrame", perf |-> "open", ch |-> 0, f |-> [mfs |-> 4096, chmax |-> 10]],
+                  [e |-> "AAcceptSession", s |-> "s1", cfg |-> [noi |-> 1000, iw |-> 100, ow |-> 100]],
+                  [e |-> "PFrame", perf |-> "begin", ch |-> 3, f |-> [rch |-> -1, noi |-> 0, iw |-> 1000, ow |-> 100]] >>
+\* attaching: the client attaches and the peer answers; the listener accepts what the peer attaches
+Att(l, s, ch, h, eutSender, cfgC, cfgL) ==
+  IF Side = "client" THEN << [e |-> IF eutSender THEN "AAttachS" ELSE "AAttachR", l |-> l, s |-> s, cfg |-> cfgC], PAtt(ch, l, h, IF eutSender THEN "r" ELSE "s") >>
+  ELSE << [e |-> "AAcceptLink", l |-> l, s |-> s, cfg |-> cfgL], PAtt(ch, l, h, IF eutSender THEN "r" ELSE "s") >>
 Conc(e, m) ==
-  CASE e = "AttS1" -> << [e |-> "AAttachS", l |-> "L1", s |-> "s1", cfg |-> [snd |-> 2, rcv |-> 0, idc |-> 0]], PAtt(3, "L1", H(5), "r"), Credit(3, 0, H(5)) >>
-    [] e = "AttR2" -> << [e |-> "AAttachR", l |-> "L2", s |-> "s1", cfg |-> [snd |-> 2, rcv |-> 0, credit |-> 10, auto_accept |-> TRUE]], PAtt(3, "L2", H(6), "s") >>
+  CASE e = "AttS1" -> Att("L1", "s1", 3, H(5), TRUE, [snd |-> 2, rcv |-> 0, idc |-> 0], [credit |-> 10]) \o << Credit(3, 0, H(5)) >>
+    [] e = "AttR2" -> Att("L2", "s1", 3, H(6), FALSE, [snd |-> 2, rcv |-> 0, credit |-> 10, auto_accept |-> TRUE], [credit |-> 10])
     [] e = "AttDup" -> << [e |-> "AAttachS", l |-> "L9", s |-> "s1", cfg |-> [name |-> "L1", snd |-> 2, rcv |-> 0, idc |-> 0]] >>
     [] e = "Refuse4" -> << [e |-> "AAttachR", l |-> "L4", s |-> "s1", cfg |-> [snd |-> 2, rcv |-> 0, credit |-> 10]],
                            [e |-> "PFrame", perf |-> "attach", ch |-> 3, f |-> [name |-> "L4", h |-> H(8), role |-> "s", snd |-> 2, rcv |-> 0, idc |-> 0, src |-> FALSE, tgt |-> FALSE]],
@@ -64,9 +75,11 @@ Conc(e, m) ==
     [] e = "Send1" -> << Send("L1", m, FALSE) >>
     [] e = "SendDrop1" -> << Send("L1", m, FALSE), [e |-> "ADrop", h |-> "l:L1"], PDet(3, H(5), TRUE, "") >>
     [] e = "SendDet1" -> << Send("L1", m, FALSE), [e |-> "ADetach", l |-> "L1", closed |-> TRUE], PDet(3, H(5), TRUE, "") >>
-    [] e = "Beg2" -> << [e |-> "ABegin", s |-> "s2", cfg |-> [noi |-> 1000, iw |-> 100, ow |-> 100]],
-                        [e |-> "PFrame", perf |-> "begin", ch |-> 4, f |-> [rch |-> [ref |-> "s2"], noi |-> 0, iw |-> 1000, ow |-> 100]] >>
-    [] e = "AttS3" -> << [e |-> "AAttachS", l |-> "L3", s |-> "s2", cfg |-> [snd |-> 2, rcv |-> 0, idc |-> 0]], PAtt(4, "L3", H(7), "r"), Credit(4, 1, H(7)) >>
+    [] e = "Beg2" -> IF Side = "client" THEN << [e |-> "ABegin", s |-> "s2", cfg |-> [noi |-> 1000, iw |-> 100, ow |-> 100]],
+                                                [e |-> "PFrame", perf |-> "begin", ch |-> 4, f |-> [rch |-> [ref |-> "s2"], noi |-> 0, iw |-> 1000, ow |-> 100]] >>
+                     ELSE << [e |-> "AAcceptSession", s |-> "s2", cfg |-> [noi |-> 1000, iw |-> 100, ow |-> 100]],
+                             [e |-> "PFrame", perf |-> "begin", ch |-> 4, f |-> [rch |-> -1, noi |-> 0, iw |-> 1000, ow |-> 100]] >>
+    [] e = "AttS3" -> Att("L3", "s2", 4, H(7), TRUE, [snd |-> 2, rcv |-> 0, idc |-> 0], [credit |-> 10]) \o << Credit(4, 1, H(7)) >>
     [] e = "Send3" -> << Send("L3", m, FALSE) >>
     [] e = "End1" -> << [e |-> "AEnd", s |-> "s1"], [e |-> "PFrame", perf |-> "end", ch |-> 3, f |-> [err |-> ""]] >>
     [] e = "End1err" -> << [e |-> "AEnd", s |-> "s1", err |-> "internal"], [e |-> "PFrame", perf |-> "end", ch |-> 3, f |-> [err |-> ""]] >>
@@ -84,5 +97,5 @@ RECURSIVE Body(_, _)
 Body(sc, i) == IF i > Len(sc) THEN <<>> ELSE Conc(sc[i], i) \o Body(sc, i + 1)
 Suffix == << [e |-> "AClose", err |-> ""], [e |-> "PFrame", perf |-> "close", ch |-> 0, f |-> [err |-> ""]] >>
 Done == Len(script) = Depth \/ (\A e \in Ev : ~Enabled(e))
-Emit == Done => PrintT(<<"SCRIPT", ToJson([side |-> "client", id |-> <<PeerHandleBase>> \o script, ev |-> Prefix \o Body(script, 1) \o Suffix])>>)
+Emit == Done => PrintT(<<"SCRIPT", ToJson([side |-> Side, id |-> <<Side, PeerHandleBase>> \o script, ev |-> Prefix \o Body(script, 1) \o Suffix])>>)
 =============================================================================
